@@ -104,13 +104,13 @@ Qed.
 (* C13 field order + "only the requested bytes": the payload of what any non-excluded variant
    writes is, line by line, file field ++ date field ++ line; and that is what is counted *)
 Theorem print_msg_payload o m last :
-  wf_full m -> m_beg m <= m_end m -> f11_class o m = false ->
+  wf_full m -> m_beg m <= m_end m ->
   payload (sem_out (print_msg o m) last) = dec_bytes o m /\ printed_of (print_msg o m) = blen (dec_bytes o m).
 Proof.
-  intros Hwf Hbe Hf.
+  intros Hwf Hbe.
   assert (H : wbytes (print_msg o m) = dec_bytes o m).
   { rewrite <- (payload_sem (print_msg o m) last). unfold sem_out.
-    rewrite (variants_agree_peq o m Hwf Hf last). fold (sem_out (decorate o m) last).
+    rewrite (variants_agree_peq o m Hwf last). fold (sem_out (decorate o m) last).
     rewrite payload_sem. apply wbytes_decorate; [apply Hwf | assumption]. }
   split.
   - rewrite payload_sem. exact H.
@@ -122,11 +122,11 @@ Lemma decorate_plain_no_C o m : no_C (decorate_plain o m) = true.
 Proof. unfold decorate_plain. apply no_C_map_Wf. Qed.
 
 Theorem print_msg_plain_out o m last :
-  wf_full m -> m_beg m <= m_end m -> f11_class o m = false -> o_colour o = false ->
+  wf_full m -> m_beg m <= m_end m -> o_colour o = false ->
   sem_out (print_msg o m) last = obs (dec_bytes o m) /\ sem_last (print_msg o m) last = last.
 Proof.
-  intros Hwf Hbe Hf Hc. unfold sem_out, sem_last.
-  rewrite (variants_agree_peq o m Hwf Hf last). unfold decorate. rewrite Hc.
+  intros Hwf Hbe Hc. unfold sem_out, sem_last.
+  rewrite (variants_agree_peq o m Hwf last). unfold decorate. rewrite Hc.
   rewrite (sem_no_C _ last (decorate_plain_no_C o m)). simpl.
   pose proof (wbytes_decorate o m (proj1 Hwf) Hbe) as H. unfold decorate in H. rewrite Hc in H.
   rewrite H. auto.
@@ -204,19 +204,19 @@ Qed.
 
 (* C13 strip_decorate, one printed message followed by the separator *)
 Theorem strip_decorate g o m last del :
-  wf_full m -> m_beg m <= m_end m -> f11_class o m = false ->
+  wf_full m -> m_beg m <= m_end m ->
   (o_colour o = true -> sgr_ok g /\ no_esc (prefix o m) /\ Forall no_esc (flat_lines m) /\ no_esc del) ->
   strip o m del (concr g (sem_out (print_msg o m) last ++ obs del)) = Some (plain m).
 Proof.
-  intros Hwf Hbe Hf Hcol. unfold strip.
-  destruct (print_msg_payload o m last Hwf Hbe Hf) as [Hpay _].
+  intros Hwf Hbe Hcol. unfold strip.
+  destruct (print_msg_payload o m last Hwf Hbe) as [Hpay _].
   assert (Hstr : (if o_colour o then strip_sgr (concr g (sem_out (print_msg o m) last ++ obs del))
                   else concr g (sem_out (print_msg o m) last ++ obs del)) = dec_bytes o m ++ del).
   { destruct (o_colour o) eqn:Hc.
     - destruct (Hcol eq_refl) as (Hg & Hp & Hl & Hd).
       rewrite strip_sgr_concr; [rewrite payload_app, payload_obs, Hpay; reflexivity | exact Hg |].
       rewrite payload_app, payload_obs, Hpay. apply no_esc_app; [apply no_esc_dec_bytes; assumption | exact Hd].
-    - destruct (print_msg_plain_out o m last Hwf Hbe Hf Hc) as [Ho _].
+    - destruct (print_msg_plain_out o m last Hwf Hbe Hc) as [Ho _].
       rewrite Ho, concr_app, !concr_obs. reflexivity. }
   rewrite Hstr. unfold shape_of_msg, dec_bytes.
   pose proof (strip_msgs_cons (prefix o m) (flat_lines m) del [] [] [] [] eq_refl) as H.
